@@ -202,9 +202,22 @@ def run(rep: Report, tier: str) -> None:
                         f"quoted as an identifier → raw parser error"))
 
     # ---- R05.4 keys = identifiers -----------------------------------------------------------------------------
-    key_defs = [d for name in ("id_names", "second_ids") for d in defs.get(name, [])]
+    # the key variables are whatever is handed to _join_on_clause as the key list (their names are irrelevant)
+    key_vars = sorted({c_.args[0].id for c_ in ast.walk(f.node) if isinstance(c_, ast.Call) and isinstance(c_.func, ast.Attribute) and c_.func.attr == "_join_on_clause"
+                       and c_.args and isinstance(c_.args[0], ast.Name)})
+    if not key_vars:
+        raise AnalysisError("_visit_set_operation: no _join_on_clause(<keys>, …) call found")
+    key_defs = [d for name in key_vars for d in defs.get(name, [])]
     rep.instance("R05.4", "keys", nontrivial=True, sample={"definitions": [src(d)[:70] for d in key_defs]})
-    if not key_defs or not all("get_identifiers_names()" in src(d) for d in key_defs):
+    def _is_ids(d: ast.AST, depth: int = 0) -> bool:
+        if "get_identifiers_names()" in src(d):
+            return True
+        if isinstance(d, ast.IfExp):
+            return _is_ids(d.body, depth) and _is_ids(d.orelse, depth)
+        if isinstance(d, ast.Name) and depth < 3 and d.id in defs:
+            return all(_is_ids(x, depth + 1) for x in defs[d.id])
+        return False
+    if not key_defs or not all(_is_ids(d) for d in key_defs):
         rep.add(Finding("R05.4", "R05.4/keys", f.module.rel, f.node.lineno, f.qualname,
                         f"set operation keys are not the identifiers: {[src(d)[:60] for d in key_defs]}"))
     for tok, rets in returns.items():
